@@ -59,8 +59,8 @@ Proof. intros. reflexivity. Qed.
 (* the counter leaves a string exactly where the reader does *)
 Lemma net_sbody : forall w sb s, SBody w sb s -> forall z, net MStr (sb ++ jc_quote :: z) = net MOut z.
 Proof.
-  intros w sb s H. induction H as [| c t d0 Hc HS IH | ch v t d0 Hv HS IH | ch h1 h2 h3 h4 t d0 Hn Hu Hh HS IH
-                                   | ch h1 h2 h3 h4 ch2 l1 l2 l3 l4 t d0 Hn Hu Hh Hu2 HS IH]; intros z; cbn [app].
+  intros w sb s H. induction H as [| c t d0 Hc HS IH | ch v t d0 Hv HS IH | ch h1 h2 h3 h4 t d0 Hn Hu Hx Hh HS IH
+                                   | ch h1 h2 h3 h4 ch2 l1 l2 l3 l4 t d0 Hn Hu Hx Hh Hu2 Hx2 HS IH]; intros z; cbn [app].
   - apply net_str_quote.
   - rewrite net_str_raw by assumption. apply IH.
   - rewrite net_str_esc, (esc_simple_not_u _ _ Hv). apply IH.
